@@ -13,6 +13,22 @@ ATTACH = "mol_gen.MolGen.attach_other"
 MASS_FUNCS = {"HeavyAtomMolWt"}
 
 
+class NoGrowthLoop(Exception):
+    pass
+
+
+def growth_or_violation(eng, res):
+    """Growth(eng), or None after recording the violation 'no growth loop'."""
+    try:
+        return Growth(eng)
+    except NoGrowthLoop as exc:
+        gen = eng.prog.func("stochastic.Stochastic.generate")
+        res.unit(gen)
+        res.ob("R-DO-WHILE", gen, "growth-loop-present", "a stochastic object grows in a loop that adds one unit at a time and compares the added mass with the drawn target",
+               gen.node, False, str(exc))
+        return None
+
+
 class Growth:
     """Locates the growth machinery inside Stochastic.generate by role."""
 
@@ -47,6 +63,8 @@ class Growth:
                     )
                     if steps and has_mass:
                         cands.append((f, n, steps))
+        if len(cands) == 0:
+            raise NoGrowthLoop("no loop in Stochastic.generate both adds units (calls a step that attaches a fragment) and reads a heavy-atom mass")
         if len(cands) != 1:
             raise AnalysisError(f"growth loop of Stochastic.generate not identified by role ({len(cands)} candidates)")
         self.fi, self.loop, steps = cands[0]
@@ -391,7 +409,9 @@ def check(eng, res):
     res.doc("R-STOP-TEST", "the mass exit is exactly M(current) − M(start) − target > 0; the only other exit is 'no open descriptor'")
     res.doc("R-START-MASS", "start mass = heavy-atom weight of the incoming molecule, measured before the loop")
     res.doc("R-CAP-NOT-COUNTED", "the measured molecule is the un-finalised loop-carried one; finalisation on a deep copy; finalised value returned")
-    G = Growth(eng)
+    G = growth_or_violation(eng, res)
+    if G is None:
+        return
     check_growth(eng, res, G)
     res.floor("R-STOP-TEST", sum(1 for o in res.obligations if o.rule == "R-STOP-TEST"), 4)
     res.floor("R-ONE-DRAW", sum(1 for o in res.obligations if o.rule == "R-ONE-DRAW"), 6)
